@@ -369,7 +369,8 @@ def roundtrip_extra(pid, lang):
             cls = c["class"]
             if cls in known:
                 seen.add(cls)
-            else:
+            elif sum(1 for v in violations if v.get("kind", "").startswith("print/parse round trip")) < 10:
+                # the smallest ten failing inputs are reported (the replay files); the count is in the evidence
                 violations.append({"property": pid, "kind": "print/parse round trip fails on the implementation", "class": cls,
                                    "accepted_text": c["text"], "printed": c["printed"], "what": c["what"]})
         for c in sorted(seen):
